@@ -74,7 +74,7 @@ func genRaw(t *rapid.T) rawOp {
 	}
 }
 
-var lookalikes = []string{"localhost", "localhost", "localhost", "localhost", "localhos", "localhost2", "localhop"}
+var lookalikes = []string{"localhost", "localhost", "localhost", "localhost", "localhos", "localhost2", "localhop", "localhop", "localhop"}
 
 // ------------------------------------------------------------------ predictions (canonical allowed outcome)
 
